@@ -67,6 +67,7 @@ func verdictSuite(maxCount uint64) hlib.Suite {
 									want := refFailed(s, f, d, errs, ign, mf, mfr)
 									var got, gotErr bool
 									input := fmt.Sprintf("successful=%d failed=%d dropped=%d errors=%s ignore-dropped=%v max-failures=%d max-failures-rate=%d", s, f, d, errs, ign, mf, mfr)
+									r.SampleCase(input)
 									panicked, pv := hlib.Catch(func() {
 										res := run.NewResult(opts, nil, stats)
 										if errs == "setup" || errs == "both" {
@@ -182,6 +183,7 @@ func cliSuite(full bool) hlib.Suite {
 										args = append(args, "--rate", "1/100ms")
 									}
 									input := fmt.Sprintf("f1 run %s with %d passing then %d failing iterations, %s", strings.Join(args, " "), ns, nf, phase)
+									r.SampleCase(input)
 									res := hlib.RunCLIScenario(args, 60*time.Second, func(t *f1testing.T) f1testing.RunFn {
 										if phase == "setup-fails" {
 											t.FailNow()
@@ -258,6 +260,7 @@ func spotSuite() hlib.Suite {
 					r.Eval()
 					want := f*100 > uint64(mfr)*total
 					input := fmt.Sprintf("successful=%d failed=%d dropped=0 max-failures-rate=%d", total-f, f, mfr)
+					r.SampleCase(input)
 					var got bool
 					panicked, pv := hlib.Catch(func() {
 						res := run.NewResult(options.RunOptions{MaxFailuresRate: mfr}, nil, stats)
